@@ -19,6 +19,7 @@ import (
 	"bytes"
 	"fmt"
 	"math/big"
+	"math/rand"
 	"reflect"
 	"runtime"
 	"sort"
@@ -1594,7 +1595,7 @@ func c23Gen(g *Gen) {
 			c23GenRep(g)
 		}
 		depth := g.Intn(4)
-		switch c := g.Intn(24); {
+		switch c := g.Intn(25); {
 		case c < 7:
 			// valid typed value through marshal (+ unmarshal in the oracle)
 			ty := c23GenTy(g, depth, true, false)
@@ -1659,6 +1660,9 @@ func c23Gen(g *Gen) {
 				}
 				g.Emit("ovf i%d i%d", v, w)
 			}
+		case c >= 24:
+			// TypedObj / TypedDict histories on reused objects (decode, update Map, re-encode)
+			g.Emit("tdict %d", g.R.Int63())
 		case c >= 22:
 			// a list (depth 1..3) that ends right after the header of one of its elements
 			if ty, b, ok := c23CutGen(g); ok {
@@ -1762,6 +1766,243 @@ func c23Walk(b []byte, sb *strings.Builder) ([]byte, bool) {
 	}
 	fmt.Fprintf(sb, "l%d%s", n, inner.String())
 	return rest, true
+}
+
+// ---- TypedObj / TypedDict histories ------------------------------------------------------
+// "any" values: nil, string, []byte, bool, []interface{}, map[string]interface{}
+
+func c23AnyGen(r *rand.Rand, depth int) interface{} {
+	k := r.Intn(7)
+	if depth <= 0 && k >= 5 {
+		k = r.Intn(5)
+	}
+	switch k {
+	case 0:
+		return nil
+	case 1:
+		return []string{"", "a", "ab", "\x80", "value"}[r.Intn(5)]
+	case 2:
+		b := make([]byte, r.Intn(4))
+		r.Read(b)
+		return b
+	case 3:
+		return r.Intn(2) == 0
+	case 4:
+		return fmt.Sprintf("s%d", r.Intn(1000))
+	case 5:
+		l := make([]interface{}, r.Intn(4))
+		for i := range l {
+			l[i] = c23AnyGen(r, depth-1)
+		}
+		return l
+	default:
+		m := map[string]interface{}{}
+		for i, n := 0, r.Intn(5); i < n; i++ {
+			m[c23AnyKey(r)] = c23AnyGen(r, depth-1)
+		}
+		return m
+	}
+}
+
+func c23AnyKey(r *rand.Rand) string {
+	return []string{"", "a", "aa", "ab", "b", "k1", "k2", "k10", "z", "\x7f", "\x80", "key"}[r.Intn(12)]
+}
+
+// canonical text of an any value (maps by sorted key)
+func c23AnyRender(sb *strings.Builder, v interface{}) {
+	switch x := v.(type) {
+	case nil:
+		sb.WriteString("nil")
+	case string:
+		fmt.Fprintf(sb, "s%q", x)
+	case []byte:
+		fmt.Fprintf(sb, "x%x", x)
+	case bool:
+		fmt.Fprintf(sb, "b%v", x)
+	case []interface{}:
+		sb.WriteString("[")
+		for _, e := range x {
+			c23AnyRender(sb, e)
+			sb.WriteString(",")
+		}
+		sb.WriteString("]")
+	case map[string]interface{}:
+		keys := make([]string, 0, len(x))
+		for k := range x {
+			keys = append(keys, k)
+		}
+		sort.Strings(keys)
+		sb.WriteString("{")
+		for _, k := range keys {
+			fmt.Fprintf(sb, "%q:", k)
+			c23AnyRender(sb, x[k])
+			sb.WriteString(",")
+		}
+		sb.WriteString("}")
+	default:
+		fmt.Fprintf(sb, "?%T", v)
+	}
+}
+
+func c23AnyStr(v interface{}) string {
+	var sb strings.Builder
+	c23AnyRender(&sb, v)
+	return sb.String()
+}
+
+// all dictionaries of a decoded TypedObj tree together with the plain map they stand for
+type c23DictRef struct {
+	d *codec.TypedDict
+	m map[string]interface{}
+}
+
+func c23CollectDicts(to *codec.TypedObj, v interface{}, out *[]c23DictRef) {
+	if to == nil {
+		return
+	}
+	switch to.Type {
+	case codec.TypeDict:
+		d, ok1 := to.Object.(*codec.TypedDict)
+		m, ok2 := v.(map[string]interface{})
+		if !ok1 || !ok2 {
+			return
+		}
+		*out = append(*out, c23DictRef{d, m})
+		for k, sub := range d.Map {
+			c23CollectDicts(sub, m[k], out)
+		}
+	case codec.TypeList:
+		l, ok1 := to.Object.([]*codec.TypedObj)
+		pl, ok2 := v.([]interface{})
+		if !ok1 || !ok2 || len(l) != len(pl) {
+			return
+		}
+		for i := range l {
+			c23CollectDicts(l[i], pl[i], out)
+		}
+	}
+}
+
+// c23TypedHistory: value -> EncodeAny -> marshal -> unmarshal into a TypedObj that is then
+// *kept*: its dictionaries' exported Map is updated (add / delete / replace), the same object is
+// marshalled again and must give exactly the bytes of a fresh EncodeAny of the updated value
+// (deterministic, sorted keys) and decode to the updated value. The object is reused over
+// several rounds; sub-objects are re-wrapped through EncodeAny's *TypedObj / *TypedDict /
+// map[string]*TypedObj paths.
+func c23TypedHistory(r *rand.Rand, o *Oracle) {
+	top := map[string]interface{}{}
+	for i, n := 0, 1+r.Intn(4); i < n; i++ {
+		top[c23AnyKey(r)] = c23AnyGen(r, 2)
+	}
+	var val interface{} = top
+	fresh := func(v interface{}) []byte {
+		to, err := codec.EncodeAny(nil, v)
+		if err != nil {
+			return nil
+		}
+		b, err := codec.RLP.MarshalToBytes(to)
+		if err != nil {
+			return nil
+		}
+		return b
+	}
+	b0 := fresh(val)
+	var held *codec.TypedObj
+	if _, err := codec.RLP.UnmarshalFromBytes(b0, &held); err != nil || held == nil {
+		o.Check(false, "typedobj-roundtrip", "EncodeAny value %s: %x does not decode: %v", c23AnyStr(val), b0, err)
+		return
+	}
+	back, err := codec.DecodeAny(nil, held)
+	o.Check(err == nil && c23AnyStr(back) == c23AnyStr(val), "typedobj-roundtrip", "value %s decodes as %s (err=%v)", c23AnyStr(val), c23AnyStr(back), err)
+	o.Count("tdict")
+	for round, rounds := 0, 1+r.Intn(3); round < rounds; round++ {
+		var dicts []c23DictRef
+		c23CollectDicts(held, val, &dicts)
+		if len(dicts) == 0 {
+			return
+		}
+		what := ""
+		for i, n := 0, 1+r.Intn(2); i < n; i++ {
+			ref := dicts[r.Intn(len(dicts))]
+			keys := make([]string, 0, len(ref.m))
+			for k := range ref.m {
+				keys = append(keys, k)
+			}
+			sort.Strings(keys)
+			switch op := r.Intn(4); {
+			case op == 0 || len(keys) == 0:
+				// add a key that is not there
+				k := c23AnyKey(r) + fmt.Sprint(r.Intn(3))
+				if _, ok := ref.m[k]; ok {
+					continue
+				}
+				nv := c23AnyGen(r, 1)
+				nto, _ := codec.EncodeAny(nil, nv)
+				ref.m[k], ref.d.Map[k] = nv, nto
+				what += "add "
+				o.Count("tdict-add")
+			case op == 1:
+				k := keys[r.Intn(len(keys))]
+				delete(ref.m, k)
+				delete(ref.d.Map, k)
+				what += "delete "
+				o.Count("tdict-delete")
+			case op == 2:
+				k := keys[r.Intn(len(keys))]
+				nv := c23AnyGen(r, 1)
+				nto, _ := codec.EncodeAny(nil, nv)
+				ref.m[k], ref.d.Map[k] = nv, nto
+				what += "replace "
+				o.Count("tdict-replace")
+			default:
+				what += "none "
+			}
+			// a nested dictionary may have been replaced / removed: collect again
+			dicts = dicts[:0]
+			c23CollectDicts(held, val, &dicts)
+			if len(dicts) == 0 {
+				break
+			}
+		}
+		want := fresh(val)
+		// count the histories in which the Keys cache has the same length as Map but other keys
+		// (delete one key, add another): fix F16 - Keys is used only if it lists exactly Map's keys
+		dicts = dicts[:0]
+		c23CollectDicts(held, val, &dicts)
+		for _, ref := range dicts {
+			if len(ref.d.Keys) > 0 && len(ref.d.Keys) == len(ref.d.Map) {
+				for _, k := range ref.d.Keys {
+					if _, ok := ref.d.Map[k]; !ok {
+						o.Count("tdict-same-count-other-keys")
+						break
+					}
+				}
+			}
+		}
+		// the kept object, marshalled again - directly and re-wrapped by EncodeAny
+		got, err := codec.RLP.MarshalToBytes(held)
+		o.Check(err == nil && bytes.Equal(got, want), "typeddict-reencode-after-update",
+			"round %d (%s): a decoded TypedObj whose Map was updated to %s marshals to %x, a fresh EncodeAny of that value to %x (err=%v)", round, what, c23AnyStr(val), got, want, err)
+		if d, ok := held.Object.(*codec.TypedDict); ok {
+			w1, _ := codec.EncodeAny(nil, d)
+			g1, err1 := codec.BC.MarshalToBytes(w1)
+			o.Check(err1 == nil && bytes.Equal(g1, want), "typeddict-reencode-after-update", "round %d (%s): EncodeAny(*TypedDict) of the updated dictionary gives %x, want %x", round, what, g1, want)
+			w2, _ := codec.EncodeAny(nil, d.Map)
+			g2, err2 := codec.BC.MarshalToBytes(w2)
+			o.Check(err2 == nil && bytes.Equal(g2, want), "typeddict-reencode-after-update", "round %d (%s): EncodeAny(map[string]*TypedObj) of the updated Map gives %x, want %x", round, what, g2, want)
+		}
+		var again *codec.TypedObj
+		_, err = codec.RLP.UnmarshalFromBytes(got, &again)
+		var dv interface{}
+		if err == nil {
+			dv, err = codec.DecodeAny(nil, again)
+		}
+		o.Check(err == nil && c23AnyStr(dv) == c23AnyStr(val), "typeddict-roundtrip-after-update",
+			"round %d (%s): updated value %s comes back as %s (err=%v)", round, what, c23AnyStr(val), c23AnyStr(dv), err)
+		if r.Intn(3) == 0 && again != nil && err == nil {
+			held = again // go on with the re-decoded object
+		}
+	}
 }
 
 // canary: a decode must not depend on what was decoded before (the codecs keep pooled
@@ -2035,6 +2276,13 @@ func (c23Runner) step(t []string, o *Oracle) string {
 			head = head[:8]
 		}
 		return fmt.Sprintf("%d %s %s", len(e), hx(head), res)
+	case "tdict":
+		seed, err := strconv.ParseInt(t[1], 10, 64)
+		if err != nil {
+			return "bad-op"
+		}
+		c23TypedHistory(rand.New(rand.NewSource(seed)), o)
+		return "ok"
 	case "tobj":
 		b := unhx(t[1])
 		var to *codec.TypedObj
